@@ -1,9 +1,16 @@
 //verif:dest internal/server/handlers/zz_verif_server.go
+//verif:replace (*github.com/mimecast/dtail/internal/server/handlers.readCommand).readGlob = verifReadGlob
+//verif:replace (*github.com/mimecast/dtail/internal/server/handlers.readCommand).isInputFromPipe = verifNotFromPipe
 
 package handlers
 
 import (
+	"context"
+
 	"github.com/mimecast/dtail/internal/io/line"
+	"github.com/mimecast/dtail/internal/lcontext"
+	"github.com/mimecast/dtail/internal/omode"
+	"github.com/mimecast/dtail/internal/regex"
 	user "github.com/mimecast/dtail/internal/user/server"
 )
 
@@ -25,3 +32,26 @@ func (h *ServerHandler) VerifTailLimiter() chan struct{}   { return h.tailLimite
 func (h *ServerHandler) VerifFlags() (bool, bool, bool)    { return h.plain, h.quiet, h.serverless }
 func (h *ServerHandler) VerifHandleCommand(s string)       { h.handleCommand(s) }
 func (h *ServerHandler) VerifShutdown()                    { h.shutdown() }
+
+// VerifGlob is what a read command asks the file layer to do (captured when
+// VerifCaptureGlobs is on; otherwise the real readGlob runs).
+type VerifGlob struct {
+	Glob string
+	Re   regex.Regex
+	Ltx  lcontext.LContext
+	Mode omode.Mode
+}
+
+var VerifCaptureGlobs bool
+var VerifGlobCh chan VerifGlob
+
+func verifReadGlob(r *readCommand, ctx context.Context, ltx lcontext.LContext, glob string, re regex.Regex, retries int) {
+	if !VerifCaptureGlobs {
+		r.readGlob(ctx, ltx, glob, re, retries)
+		return
+	}
+	VerifGlobCh <- VerifGlob{Glob: glob, Re: re, Ltx: ltx, Mode: r.mode}
+}
+
+// stdin of the process is a terminal (os.Stdin.Stat is the kernel's business)
+func verifNotFromPipe(r *readCommand) bool { return false }
